@@ -103,15 +103,22 @@ class Crash(BaseException):
     pass
 
 
+class SoftFault(OSError):
+    """injected ordinary I/O error: raised ONCE by the file-modifying call it replaces; library code may catch it,
+    run its handlers / finally blocks and go on writing - unlike Crash, nothing is blocked afterwards"""
+    pass
+
+
 class Tracer(object):
     """wraps Dataset.__setitem__, File.flush, AttributeManager.create/__setitem__/modify,
     Group.create_dataset/create_group/__setitem__/__delitem__.  Records canonical events;
     raises Crash (or hard-exits) *before* performing event number `crash_at`."""
 
-    def __init__(self, crash_at=None, hard=False, on_flush=None, active=True):
+    def __init__(self, crash_at=None, hard=False, on_flush=None, active=True, soft=False):
         self.events = []
         self.crash_at = crash_at
         self.hard = hard
+        self.soft = soft
         self.on_flush = on_flush
         self.active = active
         self._depth = 0
@@ -123,6 +130,9 @@ class Tracer(object):
             return
         idx = len(self.events)
         if self.crash_at is not None and idx == self.crash_at:
+            if self.soft:
+                self.crash_at = None          # one shot: whatever the library does next is performed normally
+                raise SoftFault('injected I/O error instead of event %d %r' % (idx, ev))
             if self.hard:
                 os._exit(9)
             self.active = False
